@@ -26,6 +26,15 @@ CHECKS = {
         'the files the structured diagnostics blame (C14 binding).',
    note=CTE_NOTE + ' OpenJDK 17 javac is the judge; batch neighbours come from the same exploration unit.',
    technique='stateless choice-tree exploration with the real compiler as oracle (alone vs every batch position)'),
+ 'C03': dict(engine='CTE+javac', category='model_checking', design_ref='5 C03',
+   text='For every explored execution (1 and 2 consecutive erasures): the structural diff before/after TypeErasure may '
+        'contain only removed var/return types and can_infer_type_args set; the reference checker in INFERENCE mode (omitted '
+        'types replaced by synthesised ones and used at later uses, expected types flowing down) finds no definite error; '
+        'javac accepts the Java translation; and every OTHER subset of omittable annotations that is_combination_feasible '
+        'accepts (functions with <=4, thorough <=7, omittable nodes) is applied, judged the same way and undone.',
+   note=CTE_NOTE + ' Inference oracle reports only definite failures (Kotlin: type parameter occurring in no constructor '
+        'parameter and no expected type; synthesised type not below the recorded one); Java additionally by javac.',
+   technique='stateless choice-tree exploration + exhaustive powerset of feasible erasure subsets, judged by a reference checker and javac'),
  'C05': dict(engine='CTE', category='model_checking', design_ref='5 C05',
    text='Same exploration as C01 with the scope rules of the reference checker (own lexical scopes: every name use '
         'resolves, arity, non-final assignment targets, regular classes only) plus unique identifiers per scope, type '
@@ -135,7 +144,7 @@ CHECKS = {
 }
 
 ENGINES = [
- {'name': 'CTE', 'path': 'mc/explore.py', 'serves_properties': ['C01', 'C02', 'C05', 'C07', 'C11', 'C13', 'C17', 'C18'],
+ {'name': 'CTE', 'path': 'mc/explore.py', 'serves_properties': ['C01', 'C02', 'C03', 'C05', 'C07', 'C11', 'C13', 'C17', 'C18'],
   'kind_free_text': 'stateless deviation-bounded explorer of the choice tree of the real pipeline (ChoiceSource replaces src.utils.random.r)'},
  {'name': 'javac-server', 'path': 'javasrv/CompileServer.java', 'serves_properties': ['C02', 'C14'],
   'kind_free_text': 'warm JVM compiling file sets with javax.tools (structured diagnostics) and com.sun.tools.javac.Main (CLI text)'},
